@@ -183,6 +183,30 @@ def action_of(repo: Repo, interp, q: int) -> Optional[str]:
     return seq[0] if len(seq) == 1 else None
 
 
+def actions_get_the_tables(repo: Repo, interp) -> None:
+    """The K rules (and the thread-keying rules of C05) read the three actions with their second parameter standing for a
+    whole window table `{tid: {eventid: [records]}}`.  `feed` must hand them one of the parser's tables as it is; when it
+    hands them something computed from a table (`table.setdefault(event.tid, {})`, a per-thread view) the actions are written
+    against another convention and are not judged by those rules."""
+    tp = repo.cls("traces_parser", "TracesParser")
+    if "feed" not in tp.methods:
+        return
+    rec = interp.run(tp.module, tp.methods["feed"], self_cls=tp)
+    ev = param(tp.methods["feed"].args.args[1].arg) if len(tp.methods["feed"].args.args) > 1 else None
+    for c in rec.calls:
+        if not (len(c.args) == 2 and c.args[0] == ev and c.where.endswith(".feed")):
+            continue
+        if c.func.op == "builtin":
+            continue
+        leaves = [c.args[1]]
+        while any(x.op == "ite" for x in leaves):
+            leaves = [y for x in leaves for y in ((x.a[1], x.a[2]) if x.op == "ite" else (x,))]
+        for x in leaves:
+            if not (x.op == "attr" and x.a[0] == SELF) and x.op != "param":
+                raise AnalysisError(f"feed hands its actions {sym.pretty(x)[:70]} instead of one of the window tables: the actions "
+                                    f"are written against a per-thread view of the table, a form the rules do not describe")
+
+
 def check(repo: Repo, run: Run) -> None:
     interp = sym.Interp(repo)
     tp = repo.cls("traces_parser", "TracesParser")
@@ -190,6 +214,7 @@ def check(repo: Repo, run: Run) -> None:
     for needed in ("__init__", "feed", "feed_generator", "parse_event_list"):
         if needed not in M:
             raise AnalysisError(f"anchor vanished: TracesParser.{needed}")
+    actions_get_the_tables(repo, interp)
     init = interp.run(tp.module, M["__init__"], self_cls=tp)
 
     # ------------------------------------------------------------------ K7 / K6 state created in __init__
@@ -306,6 +331,12 @@ def check(repo: Repo, run: Run) -> None:
                     raise AnalysisError(f"{name} stores an object of {e.value.a[0].rsplit('.', 1)[1]} into the window table: a "
                                         f"representation of the open windows other than the {{tid: {{eventid: [records]}}}} tables "
                                         f"the K rules are written for")
+                if e.value.op in ("dict", "list") and e.value.a[0]:
+                    # a window (or a thread's table) created already holding its first record: a fresh container all the same,
+                    # but a pairing machine written in another form than the one the K rules describe (open, then append to
+                    # every open window) - its steps are not judged against those rules
+                    raise AnalysisError(f"{name} stores {sym.pretty(e.value)[:50]} into the window table: the windows are created "
+                                        f"with their first record in them, a form of the pairing machine the K rules do not describe")
                 ok = e.value.op in ("dict", "list") and not e.value.a[0]
                 run.ob("K2", MOD, f"TracesParser.{name}", f"store {sym.pretty(pth)[:40]}[{sym.pretty(e.key)[:30]}]", ok,
                        f"{sym.pretty(e.value)[:60]} is stored into the window table; only a fresh [] / {{}} may be",
